@@ -179,7 +179,8 @@ class C08(World):
         "Fault-free arm of the storage simulation: seeded geometries are exported by the real exporters into simulated storage (bytes, side files through a "
         "Resolver, zip / tar.gz archives, or files in a per-run scratch directory) and loaded back through load / load_mesh / load_scene / load_path. Triangles "
         "(points, entities, cells) must come back in order at the precision the format stores, generation 2 must equal generation 1 exactly, colours must match where "
-        "carried, instance placement must match, and the exported object must be byte-identical before and after export. Exploration over sampled geometries."
+        "carried, instance placement must match, and the exported object must be byte-identical before and after export. Exports also go by file name (the writer "
+        "creating the file and its side files, possibly over an older export of the same name), and the object is exported again after an in-place edit. Exploration over sampled geometries."
     )
     LEVEL_NOTE = "Trusted: numpy; per-format precision constants (float32 for binary formats, 1e-7..1e-5 relative for text formats). Third-party loaders (meshio, cascadio) are not exercised."
     COMPONENTS = {
